@@ -417,7 +417,7 @@ ARGS_LOOP:
 							break
 						}
 						value, _ := iterator.PeekNextValue()
-						if _, is := isOption(value, mode, false); is {
+						if _, is := isOption(value, mode, false); is || value == "--" {
 							break
 						}
 
